@@ -69,6 +69,9 @@ def gen(rng, tier):
             cases.append({'kind': 'msg', 'cfg': cfg, 'codec': codec, 'hex': hexbm, 'bytes': (b[:o] + bytes([v]) + b[o + 1:]).hex(), 'mut': k})
         for _ in range(max(5, per // 6)):
             cases.append({'kind': 'msg', 'cfg': cfg, 'codec': codec, 'hex': hexbm, 'bytes': iu.mutate(rng, b).hex(), 'mut': 'multi'})
+        if hexbm:
+            for bb in iu.hex_bitmap_blanks(rng, b):
+                cases.append({'kind': 'msg', 'cfg': cfg, 'codec': codec, 'hex': hexbm, 'bytes': bb.hex(), 'mut': 'bitmap-blanks'})
     for i in range(300 if tier == 'quick' else 8000):
         n = rng.choice([0, 1, 3, 4, 19, 20, 21, 35, 36, 37, rng.randrange(0, 300)])
         raw = bytes(rng.randrange(256) for _ in range(n))
